@@ -48,6 +48,96 @@ def _name_lookup_strict(repo):
     return found[0]
 
 
+def _find_run(repo):
+    tree = ast.parse(open(os.path.join(repo, "paramiko", "transport.py")).read())
+    for node in ast.walk(tree):
+        if isinstance(node, ast.ClassDef) and node.name == "Transport":
+            for f in node.body:
+                if isinstance(f, ast.FunctionDef) and f.name == "run":
+                    return f
+    raise RuntimeError("Transport.run not found")
+
+
+def _fallback_send_blocking(repo):
+    """Which send primitive the fallback branch of Transport.run uses for its reply.
+    `_send_message` / `packetizer.send_message` never wait; `_send_user_message` waits for clear_to_send,
+    which only the calling (transport) thread could set while a key exchange is in progress."""
+    run = _find_run(repo)
+    branch = None
+    for node in ast.walk(run):
+        if isinstance(node, ast.If) and node.orelse and not (len(node.orelse) == 1 and isinstance(node.orelse[0], ast.If)):
+            for st in node.orelse:
+                if isinstance(st, ast.Assign) and len(st.targets) == 1 and isinstance(st.targets[0], ast.Name) \
+                        and st.targets[0].id == "name":
+                    if branch is not None:
+                        raise RuntimeError("two fallback branches in Transport.run")
+                    branch = node.orelse
+    if branch is None:
+        raise RuntimeError("fallback branch of Transport.run not found")
+    sends = []
+    for st in branch:
+        for n in ast.walk(st):
+            if isinstance(n, ast.Call) and isinstance(n.func, ast.Attribute):
+                a = n.func.attr
+                if "send" in a or "write" in a:
+                    sends.append(ast.unparse(n.func))
+            if isinstance(n, (ast.While, ast.For, ast.Break, ast.Return, ast.Raise)):
+                raise RuntimeError("fallback branch of Transport.run contains a loop / break / return / raise")
+            if isinstance(n, ast.Call) and isinstance(n.func, ast.Attribute) and n.func.attr in ("wait", "acquire", "sleep", "join"):
+                raise RuntimeError("fallback branch of Transport.run blocks: " + ast.unparse(n.func))
+    if len(sends) != 1:
+        raise RuntimeError("fallback branch of Transport.run: expected exactly one send call, found %r" % sends)
+    if sends[0] in ("self._send_message", "self.packetizer.send_message"):
+        return False
+    if sends[0] == "self._send_user_message":
+        return True
+    raise RuntimeError("fallback branch of Transport.run sends with an unknown primitive: " + sends[0])
+
+
+def _reader_lookup_strict(repo):
+    """Does Packetizer.read_message (which every inbound packet passes through before dispatch) contain a
+    MSG_NAMES[x] subscript that is not guarded by `if x in MSG_NAMES:`?  (Such a lookup raises KeyError for
+    an unnamed type as soon as its code path - e.g. packet hexdump logging - is switched on.)"""
+    tree = ast.parse(open(os.path.join(repo, "paramiko", "packet.py")).read())
+    fn = None
+    for node in ast.walk(tree):
+        if isinstance(node, ast.ClassDef) and node.name == "Packetizer":
+            for f in node.body:
+                if isinstance(f, ast.FunctionDef) and f.name == "read_message":
+                    fn = f
+    if fn is None:
+        raise RuntimeError("Packetizer.read_message not found")
+    strict = []
+
+    def is_names(n):
+        return isinstance(n, ast.Name) and n.id == "MSG_NAMES"
+
+    def visit(node, guarded):
+        if isinstance(node, ast.If):
+            t = node.test
+            g = guarded
+            if (isinstance(t, ast.Compare) and len(t.ops) == 1 and isinstance(t.ops[0], ast.In)
+                    and is_names(t.comparators[0])):
+                g = guarded | {ast.dump(t.left)}
+            visit(t, guarded)
+            for st in node.body:
+                visit(st, g)
+            for st in node.orelse:
+                visit(st, guarded)
+            return
+        if isinstance(node, ast.Subscript) and is_names(node.value):
+            if ast.dump(node.slice) not in guarded:
+                strict.append(ast.unparse(node))
+        elif isinstance(node, ast.Call) and isinstance(node.func, ast.Attribute) and is_names(node.func.value):
+            if not (node.func.attr == "get" and len(node.args) == 2 and not node.keywords):
+                raise RuntimeError("Packetizer.read_message: unrecognised use of MSG_NAMES: " + ast.unparse(node))
+        for c in ast.iter_child_nodes(node):
+            visit(c, guarded)
+
+    visit(fn, frozenset())
+    return bool(strict)
+
+
 def generate(repo):
     import paramiko
     from paramiko import common, transport as T, auth_handler as AH
@@ -95,4 +185,8 @@ def generate(repo):
         out.append("Definition %s : Z := %d." % (c, v))
     out.append("(* fallback branch of Transport.run: `name = MSG_NAMES[ptype]` (true) or `.get(ptype, d)` (false) *)")
     out.append("Definition name_lookup_strict : bool := %s." % ("true" if _name_lookup_strict(repo) else "false"))
+    out.append("(* fallback branch sends its reply with _send_user_message (waits for clear_to_send) *)")
+    out.append("Definition fallback_send_blocking : bool := %s." % ("true" if _fallback_send_blocking(repo) else "false"))
+    out.append("(* Packetizer.read_message contains an unguarded MSG_NAMES[x] *)")
+    out.append("Definition reader_lookup_strict : bool := %s." % ("true" if _reader_lookup_strict(repo) else "false"))
     return {"C12_gen.v": "\n".join(out) + "\n"}
